@@ -231,6 +231,18 @@ fn dep_relative(file: &str) -> String {
 
 /// Innermost backtrace frame located in the SDK sources, as `sdk/src/file.rs:line`.
 fn innermost_sdk_frame() -> Option<String> {
+    // the first symbolisation of a process parses the whole debug info (~10 s of CPU): not the input's fault
+    let t0 = cpu_now();
+    let r = innermost_sdk_frame_inner();
+    let spent = ((cpu_now() - t0).max(0.0) * 1e6) as usize;
+    HOOK_CPU_US.fetch_add(spent, Ordering::Relaxed);
+    r
+}
+
+/// User CPU microseconds spent inside the harness's own symbolisation (excluded from the per-input budget).
+static HOOK_CPU_US: AtomicUsize = AtomicUsize::new(0);
+
+fn innermost_sdk_frame_inner() -> Option<String> {
     let bt = std::backtrace::Backtrace::force_capture().to_string();
     for line in bt.lines() {
         let l = line.trim();
@@ -359,10 +371,11 @@ pub fn guard<F: FnOnce()>(f: F) {
         *l = None;
     }
     let t0 = cpu_now();
+    let h0 = HOOK_CPU_US.load(Ordering::Relaxed);
     IN_INPUT.store(true, Ordering::Relaxed);
     let r = panic::catch_unwind(AssertUnwindSafe(f));
     IN_INPUT.store(false, Ordering::Relaxed);
-    let used = cpu_now() - t0;
+    let used = cpu_now() - t0 - (HOOK_CPU_US.load(Ordering::Relaxed) - h0) as f64 * 1e-6;
     if used >= *CPU_LIMIT.get().unwrap_or(&10.0) {
         // the "never runs unboundedly long" half of the property, judged on CPU time of this one input
         let sig = format!("C10:timeout:{}", TARGET.get().copied().unwrap_or("?"));
